@@ -241,7 +241,7 @@ def main(argv):
         rule=mod.RULE,
         samples=samples[:4] or [dict(case=c) for c in cases[:2]],
         verdict_counts=verdicts,
-        monitor_counters={k: v for k, v in counters.items() if not k.startswith("cov:")},
+        monitor_counters={k: v for k, v in counters.items() if not k.startswith(("cov:", "ir:"))},
         shards=n,
         known_finding_hits={m: len(v) for m, v in known_hits.items()},
         new_violation_mechanisms=seen_mech,
@@ -268,7 +268,7 @@ def main(argv):
     summary = "%s tier=%s seed=%d cases=%d verdicts=%s distinct_nontrivial=%d wall=%.1fs" % (
         cid, a.tier, a.seed, done, json.dumps(verdicts, sort_keys=True), len(nt), wall)
     print(summary)
-    print("  monitors: " + json.dumps({k: v for k, v in counters.items() if not k.startswith("cov:")}, sort_keys=True)[:1500])
+    print("  monitors: " + json.dumps({k: v for k, v in counters.items() if not k.startswith(("cov:", "ir:"))}, sort_keys=True)[:1500])
     if new_viol:
         return EXIT_VIOLATION
     if problems:
